@@ -600,8 +600,9 @@ class Keyvalues:
                 # We know this isn't a leaf KV, we made it earlier.
                 assert not isinstance(cur_block._value, str)
                 cur_block_contents = cur_block._value
-                # For replacing the block.
-                can_flag_replace = True
+                # For replacing the block. If it was skipped and nothing else
+                # precedes it, there is no keyvalue that could be replaced.
+                can_flag_replace = bool(cur_block_contents)
             else:
                 raise tokenizer.error(token_type, token_value)
 
